@@ -12,6 +12,7 @@ CONSTANTS
   QCap = 1
   Gating = TRUE
   QfRet = TRUE
+  LexG = "full"
 INVARIANT InvAllClauses
 INVARIANT InvNeverStuck
 INVARIANT InvDelivered
